@@ -17,7 +17,7 @@ open CV.EnvLayers.Spec
     any number of env files, exactly what the specification `finalEnv` says: `environment` over the
     last env file that defines the key, value-less entries taken from the project environment. -/
 theorem env_precedence (penv : List (Key × Str)) (fs : FS) (discard : Bool) (s s' : Service)
-    (hd : Distinct s.environment) (h : resolveServiceEnv penv fs discard s = .ok s') (k : Key) :
+    (hwf : WFFS fs) (hd : Distinct s.environment) (h : resolveServiceEnv penv fs discard s = .ok s') (k : Key) :
     lookup k s'.environment = finalEnv penv (envContents fs s.envFiles) s.environment k := by
   unfold resolveServiceEnv at h
   cases hl : loadEnvFiles penv fs s.envFiles [] with
@@ -26,7 +26,7 @@ theorem env_precedence (penv : List (Key × Str)) (fs : FS) (discard : Bool) (s 
     rw [hl] at h
     simp only [Except.ok.injEq] at h
     subst h
-    have hacc := (loadEnvFiles_spec penv fs s.envFiles [] acc distinct_nil hl).2 k
+    have hacc := (loadEnvFiles_spec penv fs s.envFiles [] acc hwf distinct_nil hl).2 k
     simp only
     rw [lookup_overrideBy k _ _ (distinct_resolveMWE _ _ hd), lookup_resolveMWE, lookup_toMWE, hacc]
     unfold finalEnv filesVal
@@ -53,13 +53,13 @@ theorem finalEnv_is_layer_fold (penv : List (Key × Str)) (files : List (List Li
 /-- **later_file_wins.**  If an env file gives `k` the value `v`, no later env file mentions `k` and
     `environment` does not mention `k`, the final value of `k` is `v` — whatever earlier files say. -/
 theorem later_file_wins (penv : List (Key × Str)) (fs : FS) (discard : Bool) (s s' : Service)
-    (hd : Distinct s.environment) (h : resolveServiceEnv penv fs discard s = .ok s')
+    (hwf : WFFS fs) (hd : Distinct s.environment) (h : resolveServiceEnv penv fs discard s = .ok s')
     (pre post : List (List Line)) (f : List Line) (hc : envContents fs s.envFiles = pre ++ f :: post)
     (k : Key) (v : Str) (hk : lookup k s.environment = none)
     (hf : fileVal (envLook penv (filesVal penv pre)) f k = some v)
     (hpost : ∀ g ∈ post, ¬ Mentions g k) :
     lookup k s'.environment = some (some v) := by
-  rw [env_precedence penv fs discard s s' hd h k, hc]
+  rw [env_precedence penv fs discard s s' hwf hd h k, hc]
   have e : pre ++ f :: post = (pre ++ [f]) ++ post := by simp
   unfold finalEnv
   rw [hk, e, filesVal_append_not_mentions _ _ _ _ hpost, filesVal_snoc, hf]
@@ -67,39 +67,39 @@ theorem later_file_wins (penv : List (Key × Str)) (fs : FS) (discard : Bool) (s
 
 /-- **explicit_value_wins.**  An `environment` entry written with a value (possibly empty) is final. -/
 theorem explicit_value_wins (penv : List (Key × Str)) (fs : FS) (discard : Bool) (s s' : Service)
-    (hd : Distinct s.environment) (h : resolveServiceEnv penv fs discard s = .ok s')
+    (hwf : WFFS fs) (hd : Distinct s.environment) (h : resolveServiceEnv penv fs discard s = .ok s')
     (k : Key) (v : Str) (hk : lookup k s.environment = some (some v)) :
     lookup k s'.environment = some (some v) := by
-  rw [env_precedence penv fs discard s s' hd h k]
+  rw [env_precedence penv fs discard s s' hwf hd h k]
   unfold finalEnv
   rw [hk]
 
 /-- **valueless_takes_project_env.**  An `environment` key written without a value takes the value of
     the project environment when it is present there (env files do not matter). -/
 theorem valueless_takes_project_env (penv : List (Key × Str)) (fs : FS) (discard : Bool) (s s' : Service)
-    (hd : Distinct s.environment) (h : resolveServiceEnv penv fs discard s = .ok s')
+    (hwf : WFFS fs) (hd : Distinct s.environment) (h : resolveServiceEnv penv fs discard s = .ok s')
     (k : Key) (v : Str) (hk : lookup k s.environment = some none) (hp : lookup k penv = some v) :
     lookup k s'.environment = some (some v) := by
-  rw [env_precedence penv fs discard s s' hd h k]
+  rw [env_precedence penv fs discard s s' hwf hd h k]
   unfold finalEnv
   rw [hk, hp]
 
 /-- **valueless_absent_is_unset.**  An `environment` key written without a value and absent from the
     project environment stays without value — it *overrides* whatever the env files give the key. -/
 theorem valueless_absent_is_unset (penv : List (Key × Str)) (fs : FS) (discard : Bool) (s s' : Service)
-    (hd : Distinct s.environment) (h : resolveServiceEnv penv fs discard s = .ok s')
+    (hwf : WFFS fs) (hd : Distinct s.environment) (h : resolveServiceEnv penv fs discard s = .ok s')
     (k : Key) (hk : lookup k s.environment = some none) (hp : lookup k penv = none) :
     lookup k s'.environment = some none := by
-  rw [env_precedence penv fs discard s s' hd h k]
+  rw [env_precedence penv fs discard s s' hwf hd h k]
   unfold finalEnv
   rw [hk, hp]
 
 /-- keys that no layer mentions are absent from the result -/
 theorem absent_everywhere_is_absent (penv : List (Key × Str)) (fs : FS) (discard : Bool) (s s' : Service)
-    (hd : Distinct s.environment) (h : resolveServiceEnv penv fs discard s = .ok s')
+    (hwf : WFFS fs) (hd : Distinct s.environment) (h : resolveServiceEnv penv fs discard s = .ok s')
     (k : Key) (hk : lookup k s.environment = none) (hf : ∀ g ∈ envContents fs s.envFiles, ¬ Mentions g k) :
     lookup k s'.environment = none := by
-  rw [env_precedence penv fs discard s s' hd h k]
+  rw [env_precedence penv fs discard s s' hwf hd h k]
   unfold finalEnv
   rw [hk]
   have := filesVal_append_not_mentions penv [] (envContents fs s.envFiles) k hf
@@ -109,10 +109,11 @@ theorem absent_everywhere_is_absent (penv : List (Key × Str)) (fs : FS) (discar
 
 /-! ## references inside env files -/
 
-/-- the value of the last line `k=<segments>` of a file: every `${r}` sees the lookup, then the earlier lines -/
+/-- the value of the last line `k=<template>` of a file is what the interpolation grammar says the template evaluates to
+    when every variable is looked up in the caller's lookup first and in the earlier lines of the file second -/
 theorem file_value_chain (look : Look) (pre post : List Line) (k : Key) (v : List Seg) (hpost : ¬ Mentions post k) :
     fileVal look (pre ++ Line.assign k v :: post) k =
-      some (evalSegs (fun r => orElse (look r) (fileVal look pre r)) v) := by
+      some (specValue (fun r => orElse (look r) (fileVal look pre r)) v) := by
   unfold fileVal
   rw [List.reverse_append, List.reverse_cons, List.append_assoc, fileValRevFrom_append,
     fileValRevFrom_not_mentions]
@@ -125,12 +126,29 @@ theorem file_value_chain (look : Look) (pre post : List Line) (k : Key) (v : Lis
     the same file, else to the empty string — in that order. -/
 theorem crossref_chain (penv : List (Key × Str)) (earlier : List (List Line)) (pre post : List Line) (k r : Key)
     (hpost : ¬ Mentions post k) :
-    fileVal (envLook penv (filesVal penv earlier)) (pre ++ Line.assign k [Seg.ref r] :: post) k =
+    fileVal (envLook penv (filesVal penv earlier)) (pre ++ Line.assign k [CV.Template.Seg.var r true] :: post) k =
       some ((orElse (filesVal penv earlier r)
               (orElse (lookup r penv)
                 (fileVal (envLook penv (filesVal penv earlier)) pre r))).getD []) := by
   rw [file_value_chain _ _ _ _ _ hpost]
-  simp [evalSegs, envLook, orElse_assoc]
+  simp [specValue, CV.Template.evalL, CV.Template.Seg.eval, envLook, orElse_assoc]
+
+/-- **default_chain.**  `k=${r:-d}` (d a literal): the same chain decides whether `r` is set and non-empty;
+    otherwise the default `d` is the value. -/
+theorem default_chain (look : Look) (pre post : List Line) (k r : Key) (d : Str) (hpost : ¬ Mentions post k) :
+    fileVal look (pre ++ Line.assign k [CV.Template.Seg.op r .colonDash [.lit d]] :: post) k =
+      some (match orElse (look r) (fileVal look pre r) with
+        | some x => if x = [] then d else x
+        | none => d) := by
+  rw [file_value_chain _ _ _ _ _ hpost]
+  simp only [specValue, CV.Template.evalL, CV.Template.Seg.eval, CV.Template.opSpec, List.append_nil]
+  cases orElse (look r) (fileVal look pre r) with
+  | none => simp
+  | some x =>
+    by_cases hx : x = []
+    · subst hx; simp
+    · have : (some x == some ([] : Str)) = false := by simp [hx]
+      simp [this, hx]
 
 /-- a last bare line `k` takes the lookup's value, else what the earlier lines gave -/
 theorem bare_line_inherits (look : Look) (pre post : List Line) (k : Key) (hpost : ¬ Mentions post k) :
@@ -142,12 +160,19 @@ theorem bare_line_inherits (look : Look) (pre post : List Line) (k : Key) (hpost
   · intro ⟨l, hl, e⟩
     exact hpost ⟨l, List.mem_reverse.1 hl, e⟩
 
+/-- **no_panic.**  Reading env files never reaches a panic of `template.Substitute` (C07's `subst_never_panics`): the
+    `panic` outcome of the model is unreachable, and a file is rejected only as `parse` (a rejected line) or `template`
+    (an invalid template or an unsatisfied `${X:?msg}`). -/
+theorem no_panic (look : Look) (ls : List Line) (out : List (Key × Str)) (e : Err)
+    (h : parseLines look ls out = .error e) : e = .parse ∨ e = .template :=
+  parseLines_err look ls out e h
+
 /-! ## labels -/
 
 /-- **labels_precedence.**  Labels are layered the same way: `labels` over the last label file that
     defines the key; references in label files see earlier label files and earlier lines only. -/
 theorem labels_precedence (fs : FS) (discard : Bool) (s s' : Service)
-    (hd : Distinct s.labels) (h : resolveServiceLabels fs discard s = .ok s') (k : Key) :
+    (hwf : WFFS fs) (hd : Distinct s.labels) (h : resolveServiceLabels fs discard s = .ok s') (k : Key) :
     lookup k s'.labels = finalLabel (labelContents fs s.labelFiles) s.labels k := by
   unfold resolveServiceLabels at h
   cases hl : loadLabelFiles fs s.labelFiles [] with
@@ -156,9 +181,9 @@ theorem labels_precedence (fs : FS) (discard : Bool) (s s' : Service)
     rw [hl] at h
     simp only [Except.ok.injEq] at h
     subst h
-    have hacc := (loadLabelFiles_spec fs s.labelFiles [] acc distinct_nil hl).2 k
+    have hacc := (loadLabelFiles_spec fs s.labelFiles [] acc hwf distinct_nil hl).2 k
     have hdl : Distinct (overrideBy (toMWE acc) (toMWE s.labels)) :=
-      distinct_overrideBy _ _ (distinct_toMWE _ (loadLabelFiles_spec fs s.labelFiles [] acc distinct_nil hl).1)
+      distinct_overrideBy _ _ (distinct_toMWE _ (loadLabelFiles_spec fs s.labelFiles [] acc hwf distinct_nil hl).1)
     have hlk : lookup k (overrideBy (toMWE acc) (toMWE s.labels)) =
         (finalLabel (labelContents fs s.labelFiles) s.labels k).map some := by
       rw [lookup_overrideBy k _ _ (distinct_toMWE _ hd), lookup_toMWE, lookup_toMWE, hacc]
@@ -413,12 +438,12 @@ theorem labels_any_iteration_order (fs : FS) (s : Service) (hd : Distinct s.labe
     normalization, the two loader stages that pre-resolve value-less entries included) the final environment is
     again exactly `finalEnv` of the YAML `environment` as written. -/
 theorem load_env_precedence (cfg : LoadCfg) (penv : List (Key × Str)) (fs : FS) (y : YEnv) (s s' : Service)
-    (hpenv : NoEqKeys penv) (hres : cfg.skipResolveEnvironment = false)
+    (hwf : WFFS fs) (hpenv : NoEqKeys penv) (hres : cfg.skipResolveEnvironment = false)
     (h : loadServiceEnv cfg penv fs y s = .ok s') (k : Key) :
     lookup k s'.environment = finalEnv penv (envContents fs s.envFiles) (decodeEnv y) k := by
   unfold loadServiceEnv at h
   simp only [hres, Bool.false_eq_true, if_false] at h
-  rw [env_precedence penv fs cfg.discard _ s' (distinct_decodeEnv' cfg penv y) h k]
+  rw [env_precedence penv fs cfg.discard _ s' hwf (distinct_decodeEnv' cfg penv y) h k]
   simp only
   rw [finalEnv_eq_rv, finalEnv_eq_rv, loadedEnv_rv cfg penv hpenv y k]
 
@@ -539,24 +564,26 @@ theorem load_project_err (cfg : LoadCfg) (penv : List (Key × Str)) (fs : FS) (s
     `Environment` is `finalEnv` of the YAML `environment` and the final `Labels` are `finalLabel` of the YAML labels —
     the two phases do not disturb each other. -/
 theorem load_service_final (cfg : LoadCfg) (penv : List (Key × Str)) (fs : FS) (y : YEnv) (s s1 s2 : Service)
-    (hpenv : NoEqKeys penv) (hres : cfg.skipResolveEnvironment = false) (hdl : Distinct s.labels)
+    (hwf : WFFS fs) (hpenv : NoEqKeys penv) (hres : cfg.skipResolveEnvironment = false) (hdl : Distinct s.labels)
     (h1 : loadServiceEnv cfg penv fs y s = .ok s1) (h2 : resolveServiceLabels fs cfg.discard s1 = .ok s2) (k : Key) :
     lookup k s2.environment = finalEnv penv (envContents fs s.envFiles) (decodeEnv y) k ∧
     lookup k s2.labels = finalLabel (labelContents fs s.labelFiles) s.labels k := by
-  have he := load_env_precedence cfg penv fs y s s1 hpenv hres h1 k
+  have he := load_env_precedence cfg penv fs y s s1 hwf hpenv hres h1 k
   have hk : s1.labels = s.labels ∧ s1.labelFiles = s.labelFiles := by
     unfold loadServiceEnv at h1
     simp only [hres, Bool.false_eq_true, if_false] at h1
     exact env_step_keeps_labels penv fs cfg.discard { s with environment := loadedEnv cfg penv y } s1 h1
-  have hl := labels_precedence fs cfg.discard s1 s2 (hk.1 ▸ hdl) h2 k
+  have hl := labels_precedence fs cfg.discard s1 s2 hwf (hk.1 ▸ hdl) h2 k
   rw [hk.1, hk.2] at hl
   exact ⟨(labels_step_keeps_env fs cfg.discard s1 s2 h2).1 ▸ he, hl⟩
 
 /-! ## non-vacuity: a concrete project on which the hypotheses above hold and the layers all matter -/
 namespace Example
+open CV.Template (Seg)
 
-def f1 : List Line := [.assign ['A'] [.lit ['1']], .assign ['B'] [.lit ['b'], .ref ['A']], .bare ['C']]
-def f2 : List Line := [.assign ['A'] [.lit ['2']], .assign ['D'] [.lit ['d']], .assign ['G'] [.ref ['A']]]
+def f1 : List Line := [.assign ['A'] [.lit ['1']], .assign ['B'] [.lit ['b'], .var ['A'] true], .bare ['C'],
+  .assign ['H'] [.op ['N', 'O'] .colonDash [.lit ['d']], .esc, .var ['A'] false]]
+def f2 : List Line := [.assign ['A'] [.lit ['2']], .assign ['D'] [.lit ['d']], .assign ['G'] [.var ['A'] true]]
 
 def fs0 : FS := fun p =>
   if p = ['f', '1'] then some (.file f1)
@@ -572,25 +599,33 @@ def s0 : Service :=
     labels := [(['L'], ['l'])]
     labelFiles := [['f', '1']] }
 
+/-- `WFFS`: every value of every file is an unambiguous template -/
+theorem wffs0 : WFFS fs0 := by
+  intro p ls h
+  unfold fs0 at h
+  split at h
+  · simp only [Option.some.injEq, Node.file.injEq] at h; subst h
+    exact wfLines_of_B _ (by decide)
+  · split at h
+    · simp only [Option.some.injEq, Node.file.injEq] at h; subst h
+      exact wfLines_of_B _ (by decide)
+    · split at h <;> simp at h
+
 /-- hypotheses of `env_precedence` (and of the value-less / explicit-value corollaries) hold on `s0`, and the result
     shows every layer: `A` from the later file, `B` through a reference to an earlier line, `C` value-less from the project
-    environment, `D` value-less and unset although `f2` defines it, `E` explicit, `G` a reference to an earlier file. -/
-example : Distinct s0.environment ∧ ∃ s', resolveServiceEnv penv0 fs0 true s0 = .ok s' ∧
-    lookup ['A'] s'.environment = some (some ['2']) ∧
-    lookup ['B'] s'.environment = some (some ['b', '1']) ∧
-    lookup ['C'] s'.environment = some (some ['c']) ∧
-    lookup ['D'] s'.environment = some none ∧
-    lookup ['E'] s'.environment = some (some ['e']) ∧
-    lookup ['G'] s'.environment = some (some ['1']) ∧
-    lookup ['Z'] s'.environment = none ∧
-    s'.envFiles = [] := by
-  refine ⟨by decide, _, rfl, ?_⟩
+    environment, `D` value-less and unset although `f2` defines it, `E` explicit, `G` a reference to an earlier file,
+    `H` = default of an unset variable, an escaped dollar and an unbraced reference. -/
+example : Distinct s0.environment ∧
+    (resolveServiceEnv penv0 fs0 true s0).map (fun s' =>
+      (([['A'], ['B'], ['C'], ['D'], ['E'], ['G'], ['H'], ['Z']] : List Key).map fun k => lookup k s'.environment, s'.envFiles)) =
+    .ok ([some (some ['2']), some (some ['b', '1']), some (some ['c']), some none, some (some ['e']),
+          some (some ['1']), some (some ['d', '$', '1']), none], []) := by
   decide
 
 /-- hypotheses of `later_file_wins` hold: `f2` is the last file, gives `A` a value, `environment` does not mention `A` -/
 example : envContents fs0 s0.envFiles = [f1] ++ f2 :: [] ∧ lookup ['A'] s0.environment = none ∧
     fileVal (envLook penv0 (filesVal penv0 [f1])) f2 ['A'] = some ['2'] ∧ (∀ g ∈ ([] : List (List Line)), ¬ Mentions g ['A']) := by
-  refine ⟨by decide, by decide, by decide, ?_⟩
+  refine ⟨rfl, by decide, by decide, ?_⟩
   intro g hg; cases hg
 
 /-- hypotheses of `valueless_takes_project_env` / `valueless_absent_is_unset` / `explicit_value_wins` -/
@@ -599,37 +634,40 @@ example : lookup ['C'] s0.environment = some none ∧ lookup ['C'] penv0 = some 
     lookup ['E'] s0.environment = some (some ['e']) := by decide
 
 /-- hypotheses of `labels_precedence`: label file `f1` and `labels` -/
-example : Distinct s0.labels ∧ ∃ s', resolveServiceLabels fs0 false s0 = .ok s' ∧
-    lookup ['A'] s'.labels = some ['1'] ∧ lookup ['L'] s'.labels = some ['l'] ∧ lookup ['C'] s'.labels = none ∧
-    s'.labelFiles = [['f', '1']] := by
-  refine ⟨by decide, _, rfl, ?_⟩
+example : Distinct s0.labels ∧
+    (resolveServiceLabels fs0 false s0).map (fun s' =>
+      (([['A'], ['L'], ['C']] : List Key).map fun k => lookup k s'.labels, s'.labelFiles)) =
+    .ok ([some ['1'], some ['l'], none], [['f', '1']]) := by
   decide
 
 /-- hypotheses of `missing_required_err`: the files before the missing required one load -/
-example : ∃ acc, loadEnvFiles penv0 fs0 [⟨['f', '1'], true, []⟩] [] = .ok acc ∧ Missing fs0 ['f', '3'] :=
-  ⟨_, rfl, Or.inl (by decide)⟩
+example : (loadEnvFiles penv0 fs0 [⟨['f', '1'], true, []⟩] []).isOk = true ∧ Missing fs0 ['f', '3'] :=
+  ⟨by decide, Or.inl rfl⟩
 
-example : resolveServiceEnv penv0 fs0 false { s0 with envFiles := [⟨['f', '1'], true, []⟩, ⟨['f', '3'], true, []⟩] } = .error .notFound := rfl
+example : (resolveServiceEnv penv0 fs0 false { s0 with envFiles := [⟨['f', '1'], true, []⟩, ⟨['f', '3'], true, []⟩] }).map (·.environment)
+    = .error .notFound := by
+  decide
 
 /-- hypotheses of `missing_optional_skipped` (ENOENT kind; the ENOTDIR kind is `Neg.witness_missing`) -/
-example : fs0 ['f', '3'] = none ∧ (⟨['f', '3'], false, []⟩ : EnvFile).required = false := by decide
+example : Missing fs0 ['f', '3'] ∧ (⟨['f', '3'], false, []⟩ : EnvFile).required = false := ⟨Or.inl rfl, rfl⟩
 
-/-- hypotheses of `missing_optional_skipped` / `missing_required_err` with the ENOTDIR kind of missing -/
 example : Missing Neg.witnessFS Neg.witnessFile.path := Neg.witness_missing.1
 
 /-- hypotheses of `missing_label_file_err` -/
-example : resolveServiceLabels fs0 false { s0 with labelFiles := [['f', '1'], ['f', '3']] } = .error .notFound := rfl
+example : (resolveServiceLabels fs0 false { s0 with labelFiles := [['f', '1'], ['f', '3']] }).map (·.labels) = .error .notFound := by
+  decide
 
-/-- other error classes of the model are reachable: a directory, a format, a rejected line -/
-example : resolveServiceEnv penv0 fs0 false { s0 with envFiles := [⟨['d'], false, []⟩] } = .error .read := rfl
-example : resolveServiceEnv penv0 fs0 false { s0 with envFiles := [⟨['f', '1'], false, ['r', 'a', 'w']⟩] } = .error .format := rfl
-example : parseLines (fun _ => none) [.assign ['A'] [], .bad] [] = .error .parse := rfl
+/-- other error classes of the model are reachable: a directory, a format, a rejected line, a failing template -/
+example : (resolveServiceEnv penv0 fs0 false { s0 with envFiles := [⟨['d'], false, []⟩] }).map (·.environment) = .error .read := by decide
+example : (resolveServiceEnv penv0 fs0 false { s0 with envFiles := [⟨['f', '1'], false, ['r', 'a', 'w']⟩] }).map (·.environment) = .error .format := by decide
+example : parseLines (fun _ => none) [.assign ['A'] [], .bad] [] = .error .parse := by decide
+example : parseLines (fun _ => none) [.assign ['A'] [.op ['X'] .colonQ [.lit ['m']]]] [] = .error .template := by decide
 
 /-- hypotheses of `load_env_precedence`: `=`-free project keys, a sequence-form `environment` with value-less entries -/
-example : NoEqKeys penv0 ∧ ∃ s', loadServiceEnv ⟨false, false, true⟩ penv0 fs0
-      (.list [.bare ['C'], .bare ['D'], .kv ['E'] ['e']]) s0 = .ok s' ∧
-    lookup ['C'] s'.environment = some (some ['c']) ∧ lookup ['D'] s'.environment = some none := by
-  refine ⟨by unfold NoEqKeys; decide, _, rfl, ?_⟩
+example : NoEqKeys penv0 ∧
+    (loadServiceEnv ⟨false, false, true⟩ penv0 fs0 (.list [.bare ['C'], .bare ['D'], .kv ['E'] ['e']]) s0).map
+      (fun s' => (lookup ['C'] s'.environment, lookup ['D'] s'.environment)) = .ok (some (some ['c']), some none) := by
+  refine ⟨by unfold NoEqKeys; decide, ?_⟩
   decide
 
 /-- hypotheses of `env_order_independent`: a genuinely different listing of the same maps -/
@@ -638,7 +676,12 @@ example : Distinct s0.environment ∧ Distinct penv0 ∧
   refine ⟨by decide, by decide, ?_⟩
   decide
 
-/-- hypothesis of `crossref_chain` / `file_value_chain` / `bare_line_inherits`: a key not mentioned later -/
+/-- hypotheses of `env_any_iteration_order`: a run that iterates `environment` backwards exists -/
+example : RangeResolve (fun k => lookup k penv0) s0.environment
+    (resolveMWE (fun k => lookup k penv0) s0.environment.reverse) :=
+  ⟨s0.environment.reverse, (List.reverse_perm _).symm, by decide, fun _ => rfl⟩
+
+/-- hypothesis of `crossref_chain` / `file_value_chain` / `default_chain` / `bare_line_inherits`: a key not mentioned later -/
 example : ¬ Mentions [Line.assign ['X'] []] ['A'] := by
   intro ⟨l, hl, e⟩
   simp only [List.mem_singleton] at hl
